@@ -152,6 +152,20 @@ Proof.
   apply find_entry_spec in F. destruct F as (a1 & a2 & -> & _). apply in_or_app. right; left; reflexivity.
 Qed.
 
+(* extraction replaces whatever the output path held *)
+Lemma output_replaced :
+  forall fixed i p, run fixed (with_pre i p) = run fixed i.
+Proof. intros fixed i p. reflexivity. Qed.
+
+Lemma bundle_bytes_over_existing :
+  forall i old b x, run true (with_pre i (Some old)) = OOk b x ->
+    exists a, first_holder (search_dirs i) (FArchive a)
+              /\ find_entry (platform_name (goos i) (goarch i)) a = Some b.
+Proof.
+  intros i old b x H. rewrite output_replaced in H.
+  destruct (bundle_bytes i b x H) as (a & Ha & Hb & _). eauto.
+Qed.
+
 (* ---- the checker ---- *)
 
 Lemma has_entry_In :
@@ -280,13 +294,13 @@ Definition witness_both : input :=
   {| in_bin := true;
      exe_slot := SFile (FArchive [("linux_amd64", "EXE")]);
      lib_slot := SFile (FArchive [("linux_amd64", "LIB")]);
-     goos := "linux"; goarch := "amd64" |}.
+     goos := "linux"; goarch := "amd64"; out_pre := Some "a longer file that was there before" |}.
 
 Definition witness_later_error : input :=
   {| in_bin := true;
      exe_slot := SFile (FArchive [("linux_amd64", "EXE")]);
      lib_slot := SOpenErr;
-     goos := "linux"; goarch := "amd64" |}.
+     goos := "linux"; goarch := "amd64"; out_pre := Some "a longer file that was there before" |}.
 
 Lemma refuted_unfixed_check :
   exists i, check_C46 i (run false i) = false.
